@@ -6,3 +6,10 @@ var verifNoRewrites bool
 
 // VerifSetRewrites enables or disables the semantics-preserving tree rewrites.
 func VerifSetRewrites(enabled bool) { verifNoRewrites = !enabled }
+
+var verifNoNonboundaryAtomic bool
+
+// VerifSetNonboundaryAtomicRule enables or disables the one auto-atomicity rule that treats
+// a following \B as compatible with a loop over non-word / non-digit characters (used by the
+// verification harness to attribute failures to that rule).
+func VerifSetNonboundaryAtomicRule(enabled bool) { verifNoNonboundaryAtomic = !enabled }
